@@ -321,33 +321,29 @@ def readBanks (f : Bytes) : Nat → List Nat → Machine → Except Err Machine
     | none => .error .eof
     | some d => readBanks f (off + pageSize) bs { m with ram := setBank m.ram b d }
 
+/-- the 128K branch of `sna::load`, after the header: secondary header, paging, banks -/
+def snaLoad128 (fx : Fixes) (f : Bytes) (m : Machine) : Except Err Machine :=
+  match slice f sna48Size 4 with
+  | none => .error .eof
+  | some t =>
+    let m := { m with cpu := { m.cpu with pc := word (t.getD 0 0) (t.getD 1 0) } }
+    let m := m.restore7ffd fx (t.getD 2 0)
+    let p := m.pagedBank
+    (readBanks f snaHeaderSize [5, 2, p] m).bind fun m =>
+    (readBanks f snaTailOffset (tailBanks p) m).bind fun m => .ok m.refresh
+
+/-- the 48K branch of `sna::load`, after the header: three pages, then PC from the stack -/
+def snaLoad48 (f : Bytes) (m : Machine) : Except Err Machine :=
+  (readBanks f snaHeaderSize [0, 1, 2] m).bind fun m => .ok m.popPc.refresh
+
 /-- `sna::load` -/
 def snaLoad (fx : Fixes) (f : Bytes) (r : Machine) : Except Err Machine :=
-  let size := f.length
-  let is128 := sna48Size < size
-  if size < sna48Size then .error .eof else
+  let is128 := decide (sna48Size < f.length)
+  if f.length < sna48Size then .error .eof else
   if fx.rejectMismatch && (is128 != (r.kind == .k128)) then .error .machineNotSupported else
-  let r := { r with cpu := r.cpu.resetExec fx }
-  match snaLoadHeader (f.take snaHeaderSize) r with
+  match snaLoadHeader (f.take snaHeaderSize) { r with cpu := r.cpu.resetExec fx } with
   | none => .error .panic
-  | some m =>
-    if is128 then
-      match slice f sna48Size 4 with
-      | none => .error .eof
-      | some t =>
-        let m := { m with cpu := { m.cpu with pc := word (t.getD 0 0) (t.getD 1 0) } }
-        let m := m.restore7ffd fx (t.getD 2 0)
-        let p := m.pagedBank
-        match readBanks f snaHeaderSize [5, 2, p] m with
-        | .error e => .error e
-        | .ok m =>
-          match readBanks f snaTailOffset (tailBanks p) m with
-          | .error e => .error e
-          | .ok m => .ok m.refresh
-    else
-      match readBanks f snaHeaderSize [0, 1, 2] m with
-      | .error e => .error e
-      | .ok m => .ok m.popPc.refresh
+  | some m => if is128 then snaLoad128 fx f m else snaLoad48 f m
 
 /-! ### ay.rs -/
 
